@@ -1,0 +1,19 @@
+// SPDX-FileCopyrightText: 2022-present Intel Corporation
+//
+// SPDX-License-Identifier: Apache-2.0
+
+//go:build verif
+
+// Contracts for the deductive verifier in /verif (govc). Comment-only: this file contains no code
+// and is excluded from every build that does not set the "verif" tag.
+
+package values
+
+//@ import configapi "github.com/onosproject/onos-api/go/onos/config/v2"
+//@ import gnmi "github.com/openconfig/gnmi/proto/gnmi"
+
+//@ func PathValuesToGnmiChange(values, target) (req, err)
+//@   trusted
+//@   modifies nothing
+//@   ensures err != nil ==> req == nil
+//@   ensures err == nil ==> req != nil && fresh(req) && len(req.Extension) == 0 && req.Prefix != nil && fresh(req.Prefix) && req.Prefix.Target == target
